@@ -36,7 +36,7 @@ def one(sid):
 
 def main():
     ids = sys.argv[1:] or sorted(os.listdir(os.path.join(VERIF, "seeded")))
-    with concurrent.futures.ThreadPoolExecutor(max_workers=8) as ex:
+    with concurrent.futures.ThreadPoolExecutor(max_workers=int(os.environ.get("REFRESH_JOBS", "5"))) as ex:
         for sid, fired, extra in ex.map(one, ids):
             if fired == "superseded":
                 print(f"{sid}: superseded -- {extra}")
